@@ -66,6 +66,7 @@ class Runner:
         self.w.listing_perm = ws.get("listing")
         self.spelling = ws.get("spelling", "abs")
         self.sfspell = ws.get("sfspell", "abs")
+        self.w.tzoff = ws.get("tzoff", 0)
         self.pj = PJ.Projector(self.w)
         for cid in ws.get("contents", ["c1", "c2", "c3", "EMPTY"]):
             self.w.bytes_of(cid)
@@ -368,6 +369,10 @@ class Runner:
         delta = W.World.delta(pre_snap, post_snap)
         k = op["op"]
         new_manifests = [p for kd, p in delta if kd == "created" and p.endswith(".mhl")]
+        # the time in the name of a new generation is the UTC time of the run (the harness clock), whatever the local zone
+        want_stamp = w.clock.strftime("%Y-%m-%d_%H%M%SZ")
+        stamps_ok = all((PJ.GEN_NAME.match(os.path.basename(p)) or [None] * 4)[3] == want_stamp
+                        for p in new_manifests if os.path.basename(os.path.dirname(p)) == "ascmhl")
         if k in ("create", "createsf") and new_manifests:
             pj.judge_dirhashes(post_snap, new_manifests, w.cpath(tuple(op["R"])), eff)
             for mp in new_manifests:
@@ -404,6 +409,7 @@ class Runner:
             "ign": ign,
             "pre": pre,
             "post": post,
+            "stamps_ok": stamps_ok,
         }
         if k == "flatten" or k == "verifypl":
             line["flat"] = self.flat_projection(post_snap)
@@ -644,8 +650,8 @@ class Runner:
                     self.env(op)
                 else:
                     self.step(op)
-                    if self.spec.get("autotick", True):
-                        self.w.tick(1)
+                    if self.spec.get("autotick", self.spec["world"].get("autotick", True)):
+                        self.w.tick(self.spec["world"].get("clockstep", 1))     # clockstep < 0: the clock is set back between runs
         finally:
             if not os.environ.get("VERIF_KEEP_WORLD"):
                 self.w.destroy()
